@@ -6,6 +6,7 @@ package l2tp
 
 import (
 	"errors"
+	"sync"
 	"time"
 )
 
@@ -63,10 +64,14 @@ type pendingMsg struct {
 	deadline  time.Time
 }
 
-// ControlChannel state. All methods are intended to be called from a
-// single goroutine (the per-tunnel control goroutine). The channel is
-// not internally synchronised.
+// ControlChannel state. The exported methods are safe for concurrent
+// use: the channel is driven from the punt consumer (Recv / replies),
+// the per-tunnel runner (Tick) and the Hello scheduler (Send), so every
+// entry point takes mu. The SendFunc and DeadFunc callbacks are invoked
+// with mu held and must not call back into the channel.
 type ControlChannel struct {
+	mu sync.Mutex
+
 	send SendFunc
 	dead DeadFunc
 
@@ -141,6 +146,8 @@ func NewControlChannel(cfg Config, send SendFunc, dead DeadFunc) *ControlChannel
 // SetPeerWindow updates the peer's Receive Window Size, typically
 // after SCCRP / SCCCN arrival when the RWS AVP is known.
 func (c *ControlChannel) SetPeerWindow(rws int) {
+	c.mu.Lock()
+	defer c.mu.Unlock()
 	if rws < 1 {
 		rws = 1
 	}
@@ -173,6 +180,8 @@ func (c *ControlChannel) Send(body []byte, now time.Time) error {
 // retransmission). RFC 2661 §3.1: ICRQ/ICRP/ICCN/CDN/WEN/SLI carry
 // the peer Session-ID; tunnel-level messages carry 0.
 func (c *ControlChannel) SendSession(body []byte, sessionID uint16, now time.Time) error {
+	c.mu.Lock()
+	defer c.mu.Unlock()
 	m := pendingMsg{
 		body:      body,
 		sessionID: sessionID,
@@ -241,6 +250,8 @@ func (c *ControlChannel) recomputeNextRTO() {
 // After a positive Recv the FSM should call Send (if it has a reply)
 // or Tick (so the channel can emit a ZLB at zlbDelay).
 func (c *ControlChannel) Recv(ns, nr uint16, now time.Time) (accept bool, err error) {
+	c.mu.Lock()
+	defer c.mu.Unlock()
 	// Process the peer's Nr: it acknowledges everything strictly
 	// less than `nr` from our send sequence. RFC 2661 §5.4: Nr is
 	// "the next expected", so Nr-1 is the highest ACKed.
@@ -270,6 +281,8 @@ func (c *ControlChannel) Recv(ns, nr uint16, now time.Time) (accept bool, err er
 // is itself never acknowledged, so Nr is left untouched and no ZLB is
 // scheduled in response.
 func (c *ControlChannel) RecvZLB(nr uint16, now time.Time) {
+	c.mu.Lock()
+	defer c.mu.Unlock()
 	c.ackThrough(nr, now)
 }
 
@@ -320,6 +333,8 @@ func (c *ControlChannel) scheduleZLB(now time.Time) {
 // emissions. Returns the earliest future timeout the caller should
 // sleep until.
 func (c *ControlChannel) Tick(now time.Time) time.Time {
+	c.mu.Lock()
+	defer c.mu.Unlock()
 	// Retransmits.
 	for i := range c.queue {
 		if c.queue[i].attempts == 0 {
@@ -381,13 +396,13 @@ func seqLess(a, b uint16) bool {
 }
 
 // Ns returns the next sequence number to be assigned. Used by tests.
-func (c *ControlChannel) Ns() uint16 { return c.ns }
+func (c *ControlChannel) Ns() uint16 { c.mu.Lock(); defer c.mu.Unlock(); return c.ns }
 
 // Nr returns the next expected receive sequence number.
-func (c *ControlChannel) Nr() uint16 { return c.nr }
+func (c *ControlChannel) Nr() uint16 { c.mu.Lock(); defer c.mu.Unlock(); return c.nr }
 
 // Cwnd returns the current send window size.
-func (c *ControlChannel) Cwnd() int { return c.cwnd }
+func (c *ControlChannel) Cwnd() int { c.mu.Lock(); defer c.mu.Unlock(); return c.cwnd }
 
 // Ssthresh returns the current slow-start threshold.
-func (c *ControlChannel) Ssthresh() int { return c.ssthresh }
+func (c *ControlChannel) Ssthresh() int { c.mu.Lock(); defer c.mu.Unlock(); return c.ssthresh }
